@@ -509,8 +509,10 @@ def live_sequences(ctx, kind, text, expected, ends, workdir, meta, quick):
                     bad = b[0]
                     break
                 got += len(frames)
-            if bad is None and got != len(expected):
-                bad = ("missing-frame", f"{got} of {len(expected)} frames delivered after the file was complete and polled twice")
+            # a last frame whose final newline never arrives may or may not be delivered (don't care)
+            n_must = sum(1 for e in ends if e <= total)
+            if bad is None and got < n_must:
+                bad = ("missing-frame", f"{got} of {n_must} complete frames delivered after the file was fully written and polled twice")
             if bad is not None:
                 sig = f"{kind}_reader:live:{bad[0]}"
                 if sig not in done:
@@ -547,8 +549,9 @@ def replay_live(data):
             if b:
                 return [(f"{kind}_reader:live:{b[0][0]}", b[0][1])]
             got += len(frames)
-        if got != len(expected):
-            return [(f"{kind}_reader:live:missing-frame", f"{got} of {len(expected)} frames delivered")]
+        n_must = sum(1 for e in ends if e <= len(raw))
+        if got < n_must:
+            return [(f"{kind}_reader:live:missing-frame", f"{got} of {n_must} frames delivered")]
         return []
     finally:
         scratch.rmtree(wd)
@@ -569,7 +572,7 @@ def _work(args):
         assert len(pf) == len(frames), (meta, len(pf), len(frames))
         st = explore_traj(sub, kind, text, frames, ends, wd, meta)
         st["live_polls"] = 0
-        if len(frames) >= 2 and len(text) < 1500 and (tier != "quick" or idx % 2 == 0):
+        if len(frames) >= 2 and len(text) < 1500:
             st["live_polls"] = live_sequences(sub, kind, text, frames, ends, wd, meta, tier == "quick")
     finally:
         scratch.rmtree(wd)
